@@ -20,5 +20,7 @@ Next == /\ l <= Len(Trace)
            /\ Chk(e.result_main = "ok" => valid, "c02_accepted_invalid_proof")
            \* "that height's committee": the membership was asked with the reference time of the PREVIOUS block
            /\ Chk(e.wrong_epoch = 0, "c02_committee_of_another_reference_time")
+           \* ... and for the height of the block being validated
+           /\ Chk(e.wrong_height = 0, "c02_committee_of_another_height")
            /\ Chk((valid /\ e.canon) => e.result = "ok", "drift_rejected_valid_proof")
 =============================================================================
